@@ -59,7 +59,7 @@ class HarnessGen:
         w('std::mem::forget(v);')
         w.close()
         w.open('Err(e) => {')
-        w('assert!(s.len() == n && s.as_ptr() == data[..n].as_ptr(), "C01: decode_mut moved the slice on failure");')
+        w('assert!(s.len() == n && (n == 0 || s.as_ptr() == data[..n].as_ptr()), "C01: decode_mut moved the slice on failure");')
         w('std::mem::forget(e);')
         w.close()
         w.close()
@@ -358,7 +358,7 @@ class HarnessGen:
         w.open('Err(e) => {')
         w('assert!(match &f { Err(x) => derr_eq(x, e), _ => false }, "C18: decode_full error differs from decode");')
         w('assert!(match &m { Err(x) => derr_eq(x, e), _ => false }, "C18: decode_mut error differs from decode");')
-        w('assert!(s.len() == n && s.as_ptr() == b.as_ptr(), "C18: decode_mut moved the slice on failure");')
+        w('assert!(s.len() == n && (n == 0 || s.as_ptr() == b.as_ptr()), "C18: decode_mut moved the slice on failure");')
         w.close()
         w.close()
         w('std::mem::forget(d); std::mem::forget(f); std::mem::forget(m);')
